@@ -11,7 +11,13 @@ import Mtv.Session.Start
   several exchanges of one process. The model has no state that outlives an exchange and no notion of the
   object the caller keeps its key in: each exchange is answered on its own. <store> is what the session
   storage's `Load` returns to `NewMTProto` (`Mtv.Session.startClient`): no client at all when it fails, a blank
-  client that runs the key exchange for both ways of saying "nothing stored".
+  client that runs the key exchange for both ways of saying "nothing stored". `<store>+<warnings>`: what the
+  application does with the client's `Warnings` channel (nil | buffered | unread | drained): the client machine has
+  no such channel — a key exchange with a conformant server sends nothing on it —, the suffix is only checked.
+  <time>: a number (the `server_time` announced), or `now+K` / `now-K`: a server whose clock is K seconds ahead of /
+  behind the machine's the operation runs on. The client machine does not look at `server_time` (the model has no
+  msg_ids), so a stand-in date ± K is announced; what the server thinks of the first encrypted request's msg_id is
+  judged on the real client only.
 -/
 namespace Driver.C06
 open Mtv Mtv.Handshake Driver Driver.Hs
@@ -25,11 +31,25 @@ def fpsAround? (s : String) : Option (List Nat × List Nat) :=
   | some b, some a => some (b, a)
   | _, _ => none
 
+/-- the `<time>` token -/
+def timeTok? (t : String) : Option Nat :=
+  match t.toList with
+  | 'n' :: 'o' :: 'w' :: '+' :: k => (String.ofList k).toNat?.bind fun k => if k ≤ 100000 then some (1800000000 + k) else none
+  | 'n' :: 'o' :: 'w' :: '-' :: k => (String.ofList k).toNat?.bind fun k => if k ≤ 100000 then some (1800000000 - k) else none
+  | _ => t.toNat?.bind fun k => if k < 2 ^ 31 then some k else none
+
+/-- `<store>` or `<store>+<warnings>` -/
+def storeTok? (t : String) : Option String :=
+  match t.splitOn "+" with
+  | [st] => some st
+  | [st, w] => if w ∈ ["nil", "buffered", "unread", "drained"] then some st else none
+  | _ => none
+
 def handleHs : List String → String
   | ["c06.hs", _tag, nonce, nn, b, _ps, pad, n, e, d, sn, p, q, g, a, dhp, t, spad, mn, xfp] =>
     match parseBytes? nonce, parseBytes? nn, parseBytes? b, parseBytes? pad, hexNat? n, e.toNat?, hexNat? d with
     | some nonce, some nn, some b, some pad, some n, some e, some d =>
-      match hexNat? sn, p.toNat?, q.toNat?, g.toNat?, hexNat? a, hexNat? dhp, t.toNat?, parseBytes? spad, fpsAround? xfp with
+      match hexNat? sn, p.toNat?, q.toNat?, g.toNat?, hexNat? a, hexNat? dhp, timeTok? t, parseBytes? spad, fpsAround? xfp with
       | some sn, some p, some q, some g, some a, some dhp, some t, some spad, some xfp =>
         if nonce.length ≠ 16 ∨ nn.length ≠ 32 ∨ b.length ≠ 256 ∨ pad.length ≠ 16 ∨ spad.length ≠ 16 then "bad-op" else
         let c : Cfg := { R := Mtv.Gen.registry, P := prims (some (p, q)), key := ⟨n, e⟩, d := ⟨nonce, nn, b, pad⟩ }
@@ -55,7 +75,7 @@ def chunks (n : Nat) (xs : List String) : Nat → List (List String)
 /-- one exchange of a sequence: `<store>` and the 18 tokens -/
 def handleStep : List String → String
   | store :: rest =>
-    match Mtv.Session.loadedOfMode? store with
+    match (storeTok? store).bind Mtv.Session.loadedOfMode? with
     | none => "bad-op"
     | some r =>
       match Mtv.Session.startClient r [] with
